@@ -354,7 +354,9 @@ structure CryptoOps where
   Cert : Type
   /- x509 -/
   parsePKCS1Priv : Bytes → Option RsaPriv
-  marshalPKCS1Priv : RsaPriv → Bytes
+  /-- `x509.MarshalPKCS1PrivateKey`: it has no error result, and indexes `key.Primes[0]`, `key.Primes[1]`:
+      a Go panic (index out of range) on a key with fewer than two primes. -/
+  marshalPKCS1Priv : RsaPriv → Res Bytes
   parsePKCS1Pub : Bytes → Option RsaPub
   marshalPKCS1Pub : RsaPub → Bytes
   parsePKCS8 : Bytes → Option (PrivAny RsaPriv EcPriv)
@@ -370,6 +372,10 @@ structure CryptoOps where
   /-- `pem.EncodeToMemory(&pem.Block{Type: …, Bytes: der})`, block type as a code. -/
   pem : Nat → Bytes → Bytes
   /- rsa -/
+  /-- `(*rsa.PrivateKey).Validate() == nil`: what the standard library calls an RSA private key. -/
+  rsaValidate : RsaPriv → Bool
+  /-- what the x509 parsers accept as an RSA public key (positive modulus, exponent in `[2, 2^31-1]`). -/
+  rsaPubValid : RsaPub → Bool
   rsaPrivParts : RsaPriv → RsaParts
   /-- the struct literal of `PrivateKey.RSA` followed by `Precompute()`. -/
   rsaPrivBuild : RsaParts → RsaPriv
@@ -390,13 +396,24 @@ structure CryptoOps where
   ecUnmarshal : Nat → Bytes → Option EcPub
   ecUnmarshalCompressed : Nat → Bytes → Option EcPub
 
-/-- the standard library with its assumed inverse laws (hypotheses of the C14 theorems, never axioms). -/
+/-- the scalar of an ecdsa private key is a scalar of its curve: `1 ≤ D ≤ n-1`. -/
+def CryptoOps.ScalarIn (C : CryptoOps) (k : C.EcPriv) : Prop :=
+  0 < C.ecPrivD k ∧ C.ecPrivD k < C.curveOrder (C.ecPrivCurve k)
+
+/-- the standard library with its assumed laws (hypotheses of the C14 theorems, never axioms).  They are
+    statements about Go ≥ 1.24 (`x509.MarshalPKCS8PrivateKey` validates an RSA key before marshalling it;
+    `Precompute` never panics).  Three groups: parse after marshal is the identity ON VALID KEYS; where the two
+    marshal functions that can panic do not; marshalling a valid key succeeds. -/
 structure Crypto extends CryptoOps where
-  parsePKCS1Priv_marshal : ∀ k, parsePKCS1Priv (marshalPKCS1Priv k) = some k
-  parsePKCS1Pub_marshal : ∀ k, parsePKCS1Pub (marshalPKCS1Pub k) = some k
-  parsePKCS8_marshal : ∀ k bs, marshalPKCS8 k = .ok bs → parsePKCS8 bs = some k
-  parseSEC1_marshal : ∀ k bs, marshalSEC1 k = some bs → parseSEC1 bs = some k
-  parsePKIX_marshal : ∀ k bs, marshalPKIX k = some bs → parsePKIX bs = some k
+  /- 1. inverse laws -/
+  parsePKCS1Priv_marshal : ∀ k bs, rsaValidate k = true → marshalPKCS1Priv k = .ok bs → parsePKCS1Priv bs = some k
+  parsePKCS1Pub_marshal : ∀ k, rsaPubValid k = true → parsePKCS1Pub (marshalPKCS1Pub k) = some k
+  parsePKCS8_marshal_rsa : ∀ k bs, marshalPKCS8 (.rsa k) = .ok bs → parsePKCS8 bs = some (.rsa k)
+  parsePKCS8_marshal_ec : ∀ k bs, toCryptoOps.ScalarIn k → marshalPKCS8 (.ecdsa k) = .ok bs →
+    parsePKCS8 bs = some (.ecdsa k)
+  parseSEC1_marshal : ∀ k bs, toCryptoOps.ScalarIn k → marshalSEC1 k = some bs → parseSEC1 bs = some k
+  parsePKIX_marshal_rsa : ∀ k bs, rsaPubValid k = true → marshalPKIX (.rsa k) = some bs → parsePKIX bs = some (.rsa k)
+  parsePKIX_marshal_ec : ∀ k bs, marshalPKIX (.ecdsa k) = some bs → parsePKIX bs = some (.ecdsa k)
   parseCert_raw : ∀ c, parseCert (certRaw c) = some c
   /-- a two-prime key is rebuilt from its own fields (`Equal` ignores the precomputed values). -/
   rsaPrivBuild_parts : ∀ k p q, (rsaPrivParts k).primes = [p, q] → rsaPrivBuild (rsaPrivParts k) = k
@@ -405,13 +422,25 @@ structure Crypto extends CryptoOps where
   rsaPub_e_int : ∀ k, isInt64 (rsaPubE k) = true
   ecPrivBuild_parts : ∀ k, curveSupported (ecPrivCurve k) = true → ecPrivBuild (ecPrivCurve k) (ecPrivD k) = k
   ecUnmarshal_marshal : ∀ k, curveSupported (ecPubCurve k) = true → ecUnmarshal (ecPubCurve k) (ecMarshal k) = some k
-  /- where `x509.MarshalPKCS8PrivateKey` is assumed not to panic: on RSA keys, on keys the parsers returned,
-     and on an ecdsa key built from a scalar in `[1, n-1]` -/
+  /- 2. where the marshal functions do not panic.  `MarshalPKCS1PrivateKey`: on a key with two primes or more.
+     `MarshalPKCS8PrivateKey`: on every RSA key (Go ≥ 1.24: `Validate` first, an invalid key is an error), on
+     keys the parsers returned, on an ecdsa key whose scalar is in `[1, n-1]`. -/
+  marshalPKCS1Priv_noPanic : ∀ k m, 2 ≤ (rsaPrivParts k).primes.length → marshalPKCS1Priv k ≠ .panic m
   marshalPKCS8_rsa_noPanic : ∀ k m, marshalPKCS8 (.rsa k) ≠ .panic m
   marshalPKCS8_parsed_noPanic : ∀ bs k m, parsePKCS8 bs = some k → marshalPKCS8 k ≠ .panic m
   marshalPKCS8_sec1_noPanic : ∀ bs k m, parseSEC1 bs = some k → marshalPKCS8 (.ecdsa k) ≠ .panic m
   marshalPKCS8_built_noPanic : ∀ c d m, curveSupported c = true → 0 < d → d < curveOrder c →
     marshalPKCS8 (.ecdsa (ecPrivBuild c d)) ≠ .panic m
+  marshalPKCS8_ec_noPanic : ∀ k m, toCryptoOps.ScalarIn k → marshalPKCS8 (.ecdsa k) ≠ .panic m
+  /- 3. marshalling a valid key succeeds -/
+  rsaValidate_primes : ∀ k, rsaValidate k = true → 2 ≤ (rsaPrivParts k).primes.length
+  marshalPKCS1Priv_ok : ∀ k, rsaValidate k = true → ∃ bs, marshalPKCS1Priv k = .ok bs
+  marshalPKCS8_rsa_ok : ∀ k, rsaValidate k = true → ∃ bs, marshalPKCS8 (.rsa k) = .ok bs
+  marshalPKIX_rsa_ok : ∀ k, ∃ bs, marshalPKIX (.rsa k) = some bs
+  marshalSEC1_ok : ∀ k, curveSupported (ecPrivCurve k) = true → toCryptoOps.ScalarIn k → ∃ bs, marshalSEC1 k = some bs
+  marshalPKCS8_ec_ok : ∀ k, curveSupported (ecPrivCurve k) = true → toCryptoOps.ScalarIn k →
+    ∃ bs, marshalPKCS8 (.ecdsa k) = .ok bs
+  marshalPKIX_ec_ok : ∀ k, curveSupported (ecPubCurve k) = true → ∃ bs, marshalPKIX (.ecdsa k) = some bs
 
 abbrev CryptoOps.Priv (C : CryptoOps) := PrivAny C.RsaPriv C.EcPriv
 abbrev CryptoOps.Pub (C : CryptoOps) := PubAny C.RsaPub C.EcPub
@@ -981,6 +1010,11 @@ def kfRAW := 32
 /-- `kf&F == F` for a one-bit `F` (a `uint8`). -/
 def hasFmt (kf f : Nat) : Bool := kf &&& f = f
 
+/-! The selectors of register.go.  The documentation of `KeyFormat` promises the default of each kind of key
+    ("If the key format is not set, it defaults to …") and nothing about the priority among several requested
+    formats; the C14 theorems are therefore stated for ANY format that is `admissible` for the mask, and the
+    functions below (the order of the `if`s of HEAD) are one admissible choice (`selectFormat_admissible`). -/
+
 def rsaPubFormat (kf : Nat) : Nat :=
   if kf = 0 ∨ hasFmt kf kfPKCS1 then kfPKCS1
   else if hasFmt kf kfX509 then kfX509
@@ -1009,6 +1043,44 @@ def symmetricFormat (kf : Nat) : Nat :=
   else if hasFmt kf kfTransparent then kfTransparent
   else kfRAW
 
+/-- the kinds of key the client registers. -/
+inductive KeyKind where
+  | rsaPriv | rsaPub | ecPriv | ecPub | sym | secret
+  deriving Repr, DecidableEq
+
+/-- the formats that exist for a kind (the arms of the builder's `switch`). -/
+def KeyKind.formats : KeyKind → List Nat
+  | .rsaPriv => [kfPKCS1, kfPKCS8, kfTransparent]
+  | .rsaPub => [kfPKCS1, kfX509, kfTransparent]
+  | .ecPriv => [kfSEC1, kfPKCS8, kfTransparent]
+  | .ecPub => [kfX509, kfTransparent]
+  | .sym => [kfRAW, kfTransparent]
+  | .secret => [kfRAW]
+
+/-- the documented default of a kind. -/
+def KeyKind.defaultFormat : KeyKind → Nat
+  | .rsaPriv => kfPKCS1
+  | .rsaPub => kfPKCS1
+  | .ecPriv => kfSEC1
+  | .ecPub => kfX509
+  | .sym => kfRAW
+  | .secret => kfRAW
+
+/-- `f` is an acceptable choice for the mask `kf`: one of the requested formats that exist for the kind, or,
+    when none of them is requested, the default of the kind. -/
+def admissible (k : KeyKind) (kf f : Nat) : Bool :=
+  let req := k.formats.filter (fun b => hasFmt kf b)
+  if req.isEmpty then f == k.defaultFormat else req.contains f
+
+/-- the choice HEAD makes. -/
+def selectFormat : KeyKind → Nat → Nat
+  | .rsaPriv, kf => rsaPrivFormat kf
+  | .rsaPub, kf => rsaPubFormat kf
+  | .ecPriv, kf => ecdsaPrivFormat kf
+  | .ecPub, kf => ecdsaPubFormat kf
+  | .sym, kf => symmetricFormat kf
+  | .secret, _ => kfRAW
+
 /-- `big.Int.BitLen()`. -/
 def bitLen (n : Int) : Nat := if n = 0 then 0 else Nat.log2 n.natAbs + 1
 
@@ -1027,14 +1099,18 @@ def rawKeyBytes (priv : Bool) (der : Bytes) (alg bitlen format : Nat) : Obj :=
 def verGE13 (ver : Nat × Nat) : Bool :=
   if ver.1 ≠ 1 then ver.1 > 1 else ver.2 ≥ 3
 
-/-- `RsaPrivateKey` (HEAD: d693174 refuses anything but two primes in the transparent format). -/
-def registerRsaPriv (C : CryptoOps) (kf : Nat) (key : C.RsaPriv) : Res Obj :=
+/-- `RsaPrivateKey` once the format `f` is chosen (HEAD: d693174 refuses anything but two primes in the
+    transparent format). -/
+def registerRsaPrivF (C : CryptoOps) (f : Nat) (key : C.RsaPriv) : Res Obj :=
   let parts := C.rsaPrivParts key
   let bitlen := bitLen parts.n
   if bitlen > maxInt32 then .err .range
   else
-    let f := rsaPrivFormat kf
-    if f = kfPKCS1 then .ok (rawKeyBytes true (C.marshalPKCS1Priv key) algRSA bitlen fPKCS1)
+    if f = kfPKCS1 then
+      match C.marshalPKCS1Priv key with      -- no error result in Go; panics on fewer than two primes
+      | .ok der => .ok (rawKeyBytes true der algRSA bitlen fPKCS1)
+      | .err e => .err e
+      | .panic m => .panic m
     else if f = kfPKCS8 then
       match C.marshalPKCS8 (.rsa key) with
       | .ok der => .ok (rawKeyBytes true der algRSA bitlen fPKCS8)
@@ -1049,6 +1125,9 @@ def registerRsaPriv (C : CryptoOps) (kf : Nat) (key : C.RsaPriv) : Res Obj :=
       | _ => .err .other                     -- "requires exactly two primes"
     else .panic "Unexpected key format"
 
+def registerRsaPriv (C : CryptoOps) (kf : Nat) (key : C.RsaPriv) : Res Obj :=
+  registerRsaPrivF C (rsaPrivFormat kf) key
+
 /-- `RsaPrivateKey` before d693174: `key.Primes[0]`, `key.Primes[1]` whatever the number of primes. -/
 def registerRsaPrivOld (C : CryptoOps) (kf : Nat) (key : C.RsaPriv) : Res Obj :=
   let parts := C.rsaPrivParts key
@@ -1056,7 +1135,11 @@ def registerRsaPrivOld (C : CryptoOps) (kf : Nat) (key : C.RsaPriv) : Res Obj :=
   if bitlen > maxInt32 then .err .range
   else
     let f := rsaPrivFormat kf
-    if f = kfPKCS1 then .ok (rawKeyBytes true (C.marshalPKCS1Priv key) algRSA bitlen fPKCS1)
+    if f = kfPKCS1 then
+      match C.marshalPKCS1Priv key with
+      | .ok der => .ok (rawKeyBytes true der algRSA bitlen fPKCS1)
+      | .err e => .err e
+      | .panic m => .panic m
     else if f = kfPKCS8 then
       match C.marshalPKCS8 (.rsa key) with
       | .ok der => .ok (rawKeyBytes true der algRSA bitlen fPKCS8)
@@ -1072,11 +1155,10 @@ def registerRsaPrivOld (C : CryptoOps) (kf : Nat) (key : C.RsaPriv) : Res Obj :=
     else .panic "Unexpected key format"
 
 /-- `RsaPublicKey`. -/
-def registerRsaPub (C : CryptoOps) (kf : Nat) (key : C.RsaPub) : Res Obj :=
+def registerRsaPubF (C : CryptoOps) (f : Nat) (key : C.RsaPub) : Res Obj :=
   let bitlen := bitLen (C.rsaPubN key)
   if bitlen > maxInt32 then .err .range
   else
-    let f := rsaPubFormat kf
     if f = kfPKCS1 then .ok (rawKeyBytes false (C.marshalPKCS1Pub key) algRSA bitlen fPKCS1)
     else if f = kfX509 then
       match C.marshalPKIX (.rsa key) with
@@ -1087,13 +1169,15 @@ def registerRsaPub (C : CryptoOps) (kf : Nat) (key : C.RsaPub) : Res Obj :=
         { rsaPub := some { modulus := C.rsaPubN key, e := C.rsaPubE key } }))
     else .panic "Unexpected key format"
 
+def registerRsaPub (C : CryptoOps) (kf : Nat) (key : C.RsaPub) : Res Obj :=
+  registerRsaPubF C (rsaPubFormat kf) key
+
 /-- `EcdsaPrivateKey` (the transparent representation depends on the client's protocol version). -/
-def registerEcPriv (C : CryptoOps) (kf : Nat) (ver : Nat × Nat) (key : C.EcPriv) : Res Obj :=
+def registerEcPrivF (C : CryptoOps) (f : Nat) (ver : Nat × Nat) (key : C.EcPriv) : Res Obj :=
   let crv := C.ecPrivCurve key
   if !curveSupported crv then .err .unsupported       -- curveToKMIP: "Unsupported curve"
   else
     let bitlen := curveBitlen crv
-    let f := ecdsaPrivFormat kf
     if f = kfSEC1 then
       match C.marshalSEC1 key with
       | none => .err .other
@@ -1111,13 +1195,15 @@ def registerEcPriv (C : CryptoOps) (kf : Nat) (ver : Nat × Nat) (key : C.EcPriv
         .ok (.privateKey (plainKB fTransparentECDSAPrivateKey 0 algECDSA bitlen { ecdsaPriv := some t }))
     else .panic "Unexpected key format"
 
+def registerEcPriv (C : CryptoOps) (kf : Nat) (ver : Nat × Nat) (key : C.EcPriv) : Res Obj :=
+  registerEcPrivF C (ecdsaPrivFormat kf) ver key
+
 /-- `EcdsaPublicKey`. -/
-def registerEcPub (C : CryptoOps) (kf : Nat) (ver : Nat × Nat) (key : C.EcPub) : Res Obj :=
+def registerEcPubF (C : CryptoOps) (f : Nat) (ver : Nat × Nat) (key : C.EcPub) : Res Obj :=
   let crv := C.ecPubCurve key
   if !curveSupported crv then .err .unsupported
   else
     let bitlen := curveBitlen crv
-    let f := ecdsaPubFormat kf
     if f = kfX509 then
       match C.marshalPKIX (.ecdsa key) with
       | none => .err .other
@@ -1130,16 +1216,21 @@ def registerEcPub (C : CryptoOps) (kf : Nat) (ver : Nat × Nat) (key : C.EcPub) 
         .ok (.publicKey (plainKB fTransparentECDSAPublicKey 1 algECDSA bitlen { ecdsaPub := some t }))
     else .panic "Unexpected key format"
 
+def registerEcPub (C : CryptoOps) (kf : Nat) (ver : Nat × Nat) (key : C.EcPub) : Res Obj :=
+  registerEcPubF C (ecdsaPubFormat kf) ver key
+
 /-- `SymmetricKey`. -/
-def registerSym (kf : Nat) (alg : Nat) (value : Bytes) : Res Obj :=
+def registerSymF (f : Nat) (alg : Nat) (value : Bytes) : Res Obj :=
   let bitLen := value.length * 8
   if bitLen > maxInt32 then .err .range
   else
-    let f := symmetricFormat kf
     if f = kfRAW then .ok (.symmetricKey (plainKB fRaw 0 alg bitLen { bytes := some value }))
     else if f = kfTransparent then
       .ok (.symmetricKey (plainKB fTransparentSymmetricKey 0 alg bitLen { sym := some value }))
     else .panic "Unexpected key format"
+
+def registerSym (kf : Nat) (alg : Nat) (value : Bytes) : Res Obj :=
+  registerSymF (symmetricFormat kf) alg value
 
 /-- `Secret`. -/
 def registerSecret (kind : Nat) (value : Bytes) : Res Obj :=
@@ -1157,13 +1248,26 @@ inductive AnyKey (C : CryptoOps) where
   | sym (alg : Nat) (value : Bytes)
   | secret (kind : Nat) (value : Bytes)
 
-def register (C : CryptoOps) (kf : Nat) (ver : Nat × Nat) : AnyKey C → Res Obj
-  | .rsaPriv k => registerRsaPriv C kf k
-  | .rsaPub k => registerRsaPub C kf k
-  | .ecPriv k => registerEcPriv C kf ver k
-  | .ecPub k => registerEcPub C kf ver k
-  | .sym alg v => registerSym kf alg v
+def AnyKey.kind {C : CryptoOps} : AnyKey C → KeyKind
+  | .rsaPriv _ => .rsaPriv
+  | .rsaPub _ => .rsaPub
+  | .ecPriv _ => .ecPriv
+  | .ecPub _ => .ecPub
+  | .sym .. => .sym
+  | .secret .. => .secret
+
+/-- the builder of the kind of key, once the format is chosen. -/
+def registerF (C : CryptoOps) (f : Nat) (ver : Nat × Nat) : AnyKey C → Res Obj
+  | .rsaPriv k => registerRsaPrivF C f k
+  | .rsaPub k => registerRsaPubF C f k
+  | .ecPriv k => registerEcPrivF C f ver k
+  | .ecPub k => registerEcPubF C f ver k
+  | .sym alg v => registerSymF f alg v
   | .secret kind v => registerSecret kind v
+
+/-- the builder with the selector of HEAD. -/
+def register (C : CryptoOps) (kf : Nat) (ver : Nat × Nat) (key : AnyKey C) : Res Obj :=
+  registerF C (selectFormat key.kind kf) ver key
 
 /-- what is compared: the key itself / the key bytes. -/
 inductive Extracted (C : CryptoOps) where
@@ -1268,9 +1372,9 @@ def transportObj (enc : Enc) : Obj → Res Obj
   | .opaque => pure .opaque
   | .template => pure .template
 
-/-- register at (format selector, version), transport in an encoding, extract. -/
-def roundtrip (C : CryptoOps) (kf : Nat) (ver : Nat × Nat) (enc : Enc) (key : AnyKey C) : Res (Extracted C) :=
-  match register C kf ver key with
+/-- register in the format `f`, at a version, transport in an encoding, extract. -/
+def roundtripF (C : CryptoOps) (f : Nat) (ver : Nat × Nat) (enc : Enc) (key : AnyKey C) : Res (Extracted C) :=
+  match registerF C f ver key with
   | .ok o =>
     match transportObj enc o with
     | .ok o' => extract C key (respOf o')
@@ -1278,6 +1382,10 @@ def roundtrip (C : CryptoOps) (kf : Nat) (ver : Nat × Nat) (enc : Enc) (key : A
     | .panic m => .panic m
   | .err e => .err e
   | .panic m => .panic m
+
+/-- the same with the selector of HEAD applied to a format mask. -/
+def roundtrip (C : CryptoOps) (kf : Nat) (ver : Nat × Nat) (enc : Enc) (key : AnyKey C) : Res (Extracted C) :=
+  roundtripF C (selectFormat key.kind kf) ver enc key
 
 /-! ## 7. A toy standard library: keys are structures, DER is a tagged self-delimiting serialisation -/
 
@@ -1295,11 +1403,11 @@ def takeNum : Bytes → Nat → Option (Nat × Bytes)
 
 def takeUn (bs : Bytes) : Option (Nat × Bytes) := takeNum bs 0
 
+/-- any number of primes (0, 1: what `Validate` rejects; 2; more: multi-prime). -/
 structure RsaPriv where
   n : Nat
   d : Nat
-  p : Nat
-  q : Nat
+  primes : List Nat
   deriving Repr, DecidableEq
 
 structure RsaPub where
@@ -1323,18 +1431,35 @@ def curveCode (i : Fin 4) : Nat := 4 + 3 * i.val
 def curveIx (c : Nat) : Fin 4 :=
   if c = 7 then 1 else if c = 10 then 2 else if c = 13 then 3 else 0
 
-def serRsaPriv (k : RsaPriv) : Bytes := un k.n ++ un k.d ++ un k.p ++ un k.q
+def serNums : List Nat → Bytes
+  | [] => []
+  | x :: xs => un x ++ serNums xs
 
+def takeMany : Nat → Bytes → Option (List Nat × Bytes)
+  | 0, bs => some ([], bs)
+  | n + 1, bs =>
+    match takeUn bs with
+    | some (x, r) =>
+      match takeMany n r with
+      | some (xs, r') => some (x :: xs, r')
+      | none => none
+    | none => none
+
+def serRsaPriv (k : RsaPriv) : Bytes := un k.n ++ (un k.d ++ (un k.primes.length ++ serNums k.primes))
+
+/-- the parsers only return keys with two primes or more. -/
 def deRsaPriv (bs : Bytes) : Option RsaPriv :=
   match takeUn bs with
   | some (n, r1) =>
     match takeUn r1 with
     | some (d, r2) =>
       match takeUn r2 with
-      | some (p, r3) =>
-        match takeUn r3 with
-        | some (q, []) => some { n := n, d := d, p := p, q := q }
-        | _ => none
+      | some (len, r3) =>
+        if len < 2 then none
+        else
+          match takeMany len r3 with
+          | some (ps, []) => some { n := n, d := d, primes := ps }
+          | _ => none
       | none => none
     | none => none
   | none => none
@@ -1407,9 +1532,17 @@ def parsePKCS8 (bs : Bytes) : Option (PrivAny RsaPriv EcPriv) :=
   | [5] => some .other
   | _ => none
 
-/-- like the real `MarshalPKCS8PrivateKey`, panics on an EC key whose scalar does not fit the curve size. -/
+/-- `Validate`, as far as the toy goes: two primes or more. -/
+def rsaValidate (k : RsaPriv) : Bool := decide (2 ≤ k.primes.length)
+
+/-- like the real `MarshalPKCS1PrivateKey`: index out of range on a key with fewer than two primes. -/
+def marshalPKCS1Priv (k : RsaPriv) : Res Bytes :=
+  if k.primes.length < 2 then .panic "index out of range" else .ok (1 :: serRsaPriv k)
+
+/-- like the real `MarshalPKCS8PrivateKey` (Go 1.24): an RSA key that is not valid is an error; panics on an
+    EC key whose scalar does not fit the curve size. -/
 def marshalPKCS8 : PrivAny RsaPriv EcPriv → Res Bytes
-  | .rsa k => .ok (3 :: serRsaPriv k)
+  | .rsa k => if rsaValidate k then .ok (3 :: serRsaPriv k) else .err .other
   | .ecdsa k =>
     if k.d ≥ 256 ^ orderBytes k.crv then .panic "math/big: buffer too small to fit value"
     else .ok (4 :: serEcPriv k)
@@ -1439,10 +1572,10 @@ def marshalSEC1 (k : EcPriv) : Option Bytes :=
   if k.d ≥ 256 ^ orderBytes k.crv then none else some (tagged 6 (serEcPriv k))
 
 def rsaPrivParts (k : RsaPriv) : RsaParts :=
-  { n := k.n, e := 65537, d := k.d, primes := [(k.p : Int), (k.q : Int)] }
+  { n := k.n, e := 65537, d := k.d, primes := k.primes.map Int.ofNat }
 
 def rsaPrivBuild (p : RsaParts) : RsaPriv :=
-  { n := p.n.toNat, d := p.d.toNat, p := (p.primes.headD 0).toNat, q := ((p.primes.drop 1).headD 0).toNat }
+  { n := p.n.toNat, d := p.d.toNat, primes := p.primes.map Int.toNat }
 
 /-- the toy library (functions only; its laws are proved in `Lemmas/KeyAccessLemmas.lean`). -/
 def ops : CryptoOps where
@@ -1452,7 +1585,7 @@ def ops : CryptoOps where
   EcPub := EcPub
   Cert := Bytes
   parsePKCS1Priv bs := (untag 1 bs).bind deRsaPriv
-  marshalPKCS1Priv k := tagged 1 (serRsaPriv k)
+  marshalPKCS1Priv := marshalPKCS1Priv
   parsePKCS1Pub bs := (untag 2 bs).bind deRsaPub
   marshalPKCS1Pub k := tagged 2 (serRsaPub k)
   parsePKCS8 := parsePKCS8
@@ -1464,6 +1597,8 @@ def ops : CryptoOps where
   parseCert bs := untag 10 bs
   certRaw c := tagged 10 c
   pem ty der := ty.toUInt8 :: der
+  rsaValidate := rsaValidate
+  rsaPubValid k := decide (0 < k.n)
   rsaPrivParts := rsaPrivParts
   rsaPrivBuild := rsaPrivBuild
   rsaPubN k := k.n
